@@ -1081,7 +1081,7 @@ def rule_zerostep(ctx):
     """(defect F25) A network of one tensor is contracted in no steps, so a pathfinder's running operation count
     ends at the 0 it started from; a finder that reports the logarithm of that count must floor it (`max(1, .)`,
     `. + 1`) or test it, otherwise it raises ValueError instead of returning the empty path."""
-    r = RuleResult("C05-ZEROSTEP", "a finder's operation count is floored before its logarithm is taken", 1)
+    r = RuleResult("C05-ZEROSTEP", "a finder's operation count is floored before its logarithm is taken", 5)
     cp = _cp(ctx)
     m = ctx.p.modules[C.BASIC]
     for f in m.all_funcs:
@@ -1114,6 +1114,32 @@ def rule_zerostep(ctx):
             else:
                 r.violation(cons, C.loc(f, call), f"`{C.unparse(call)}`: the argument comes from a processor's `.flops`, which is still 0 when "
                             "the network has a single tensor (no step was taken) — math domain error instead of the empty path")
+    # (finding F29) the exact objectives of the hyper-optimizer: a trial's flops / write are 0 and its size -inf
+    # when the tree has no step
+    sm = ctx.p.modules[C.SCORING]
+    n_obj = 0
+    for cls in sm.classes.values() if isinstance(sm.classes, dict) else sm.classes:
+        if not any(b_.name == "ExactObjective" for b_ in cls.mro()[1:]):
+            continue
+        f = cls.methods.get("__call__")
+        if f is None:
+            continue
+        n_obj += 1
+        cons = f"{C.SCORING}::{cls.name}.__call__::C05-ZEROSTEP::score"
+        bad = []
+        for call in (n for n in walk_local(f.node) if isinstance(n, ast.Call)):
+            if dotted(call.func) not in ("math.log", "math.log2", "math.log10") or not call.args:
+                continue
+            if not _positive_floor(call.args[0]):
+                bad.append(call)
+        if bad:
+            bad.sort(key=lambda c_: (c_.lineno, c_.col_offset))
+            r.violation(cons, C.loc(f, bad[0]), f"`{C.unparse(bad[0])}` (and {len(bad) - 1} more): a one-tensor network gives a tree without steps — "
+                        "flops 0, write 0, size -inf — and the objective raises ValueError for every trial, so a HyperOptimizer handed "
+                        "such a network returns no contraction")
+        else:
+            r.ok(cons, C.loc(f, f.node), "figures floored before the logarithm")
+    C.require(n_obj >= 4, "exact objectives not found in scoring.py")
     return r
 
 
